@@ -96,6 +96,7 @@ impl ReplDriver {
         ev["view"] = core.view();
         self.rec().end();
         ev["jn"] = json!(core.disk.journal_len() - j0);
+        ev["jc"] = journal_classes(&core.disk.journal_from(j0));
         ev["leak"] = json!([]);
         if let Some(js) = crate::checks::js_records(core) {
             ev["js"] = js;
